@@ -51,6 +51,31 @@ def shape(v):
 
 # ------------------------------------------------------------------ shared: R1/R2
 
+def pair_components(v):
+    """{component key: expr} of a two-component value: a tuple or a two-field struct"""
+    if v[0] == 'tuple' and len(v[2]) == 2:
+        return {'0': v[2][0], '1': v[2][1]}
+    if v[0] == 'agg' and len(v[3]) == 2:
+        return {k: e for (k, e) in v[3]}
+    return None
+
+
+def uc_components(ctx):
+    """(key of the schedule permission, key of the state-changed flag) in update_counter's return value:
+    the permission is the component that reads actions[mi].is_none() after the recursion"""
+    fn = ctx.prog.fn(FW, 'Framework', 'update_counter')
+    fa = ctx.an.get(fn)
+    for (b, k_, v) in ret_defs(fa):
+        comp = pair_components(v)
+        if comp is None:
+            continue
+        ks = list(comp)
+        for i, k in enumerate(ks):
+            if is_call(comp[k], 'is_none'):
+                return k, ks[1 - i]
+    return '0', '1'
+
+
 def rule_gating(ctx, rep, pid):
     """R1: schedule_action has one call site, dominated by allow_schedule && below_limits where
     below_limits is the result of below_action_limits evaluated after the state store."""
@@ -71,6 +96,8 @@ def rule_gating(ctx, rep, pid):
         pf = an.paths(fn)
         st = pf.at_entry(b)
 
+        akey = uc_components(ctx)[0]
+
         def guarded(S):
             bl = False
             al = False
@@ -83,7 +110,7 @@ def rule_gating(ctx, rep, pid):
                         bl = True
                     # allow_schedule = update_counter(..).0
                     x = unload(e)
-                    if x[0] == 'fld' and x[3] == '0' and is_call(unload(x[1]), '::update_counter'):
+                    if x[0] == 'fld' and x[3] == akey and is_call(unload(x[1]), '::update_counter'):
                         al = True
                     if is_call(e, '::update_counter'):
                         al = True
@@ -309,6 +336,19 @@ def switch_conditions(fa):
         t = bb['t']
         if t['k'] == 'switch':
             out.append((b, fa.operand(t['d'], (b, len(bb['s'])))))
+        # materialised conditions (`let reached = f >= max; ... if reached`): a comparison stored in a
+        # bool local that has several definitions is tested later through that local
+        for k, st in enumerate(bb['s']):
+            if 'p' not in st or st['p']['pr']:
+                continue
+            rv = st['rv']
+            if rv['k'] == 'bin' and rv['op'] in ('Eq', 'Ne', 'Lt', 'Le', 'Gt', 'Ge') and len(fa.defs().get(st['p']['l'], ())) > 1:
+                out.append((b, fa.rvalue(rv, (b, k))))
+            elif rv['k'] == 'use' and fa.fn.local_ty(st['p']['l']) == 'bool' and len(fa.defs().get(st['p']['l'], ())) > 1 \
+                    and ('m' in rv['x'] or 'c' in rv['x']):
+                e = fa.operand(rv['x'], (b, k))
+                if isinstance(e, tuple) and e and e[0] == 'bin' and e[1] in ('Eq', 'Ne', 'Lt', 'Le', 'Gt', 'Ge'):
+                    out.append((b, e))
     return out
 
 
@@ -393,12 +433,46 @@ def check_accounting_padding(ctx, rep, pid):
         rep.ob(pid + '.R5', fn, 'normal_sent-indexed-by-loop-variable', okix, 'index %s' % (show(idx[2]) if idx is not None and idx[0] == 'idx' else '?'))
 
 
-def is_range_loop_var(fa, e):
-    """e is the payload of Iterator::next on a Range (the `for mi in a..b` induction variable)"""
+def loop_iter_source(fa, e):
+    """e is the payload of Iterator::next(): ('range',) for a Range, ('slice',) for a slice iterator,
+    ('filter', closure value, inner iterator value) for Filter<..>; None otherwise"""
     e = unload(e)
-    if e[0] == 'fld' and e[1][0] == 'var' and e[1][2] == 'Some':
-        c = unload(e[1][1])
-        return is_call(c, '::next')
+    if not (e[0] == 'fld' and e[1][0] == 'var' and e[1][2] == 'Some'):
+        return None
+    c = unload(e[1][1])
+    if not is_call(c, '::next'):
+        return None
+    name = c[1]
+    if 'adapters::filter::Filter<' in name:
+        recv = c[2][0] if c[2] else None
+        if recv and recv[0] == 'ref' and recv[1][0] == 'local':
+            l = recv[1][1]
+            for (b, k, part) in fa.defs().get(l, []):
+                if part:
+                    continue
+                for x in walk(fa.def_value(l, b, k)):
+                    if is_call(x, 'Iterator::filter') and len(x[2]) == 2 and x[2][1][0] == 'closure':
+                        return ('filter', x[2][1], x[2][0])
+        return None
+    if 'adapters::' in name:
+        return None
+    if 'range::Range<' in name:
+        return ('range',)
+    if 'slice::iter::Iter<' in name:
+        return ('slice',)
+    return None
+
+
+def is_range_loop_var(fa, e, allow_filter=False):
+    """e is the payload of Iterator::next on a Range (the `for mi in a..b` induction variable);
+    with allow_filter also of a Filter over a Range (a subset of the range, in order)"""
+    src = loop_iter_source(fa, e)
+    if src is None:
+        return False
+    if src[0] == 'range':
+        return True
+    if src[0] == 'filter' and allow_filter:
+        return src[2][0] == 'agg' and src[2][1].endswith('range::Range')
     return False
 
 
@@ -1085,10 +1159,11 @@ def check_limit_reached(ctx, rep, pid):
     hl = prog.fn(FW, 'Action', 'has_limit')
     ha = an.get(hl)
     hp = an.paths(hl)
+    anames = [x['name'] for x in prog.adt('maybenot::action::Action')['variants']]
     for (b, k, v) in ret_defs(ha):
         for S in hp.at(b, k):
-            var = [f[2] for f in S if f[0] == 'variant']
-            nots = [x for f in S if f[0] == 'notvariant' for x in f[2]]
+            var = [f[2] for f in S if f[0] == 'variant' and f[2] in anames]
+            nots = [x for f in S if f[0] == 'notvariant' for x in f[2] if x in anames]
             names = var[:1] if var else [x['name'] for x in prog.adt('maybenot::action::Action')['variants'] if x['name'] not in nots]
             for n in names:
                 hasl = any(fl['name'] == 'limit' for fl in prog.variant('maybenot::action::Action', n)['fields'])
